@@ -72,6 +72,14 @@ def init_jax():
     import jax
 
     jax.config.update("jax_enable_x64", True)
+    try:  # persistent XLA compilation cache (ignored build output): repeated runs skip most of the compile time
+        cache = os.path.join(VERIF, "harness", ".cache", "jax")
+        os.makedirs(cache, exist_ok=True)
+        jax.config.update("jax_compilation_cache_dir", cache)
+        jax.config.update("jax_persistent_cache_min_compile_time_secs", 0.05)
+        jax.config.update("jax_persistent_cache_min_entry_size_bytes", -1)
+    except Exception:  # pragma: no cover
+        pass
     try:  # equinox 0.13.8 x jax 0.11.2: Tracer.__jax_array__ is None inside filter_vmap'd constructors
         import equinox._module._module as _m
 
